@@ -57,6 +57,8 @@ def parse_written(text):
 
 # ----------------------------------------------------------------------------------------- C03
 def check_C03(run: Run):
+    from shared import mapper_reuse
+    mapper_reuse(run)
     rng = random.Random(run.seed * 7 + 11); g = G.Gen(rng)
     # --- accept/reject of candidate mappings, exhaustive
     lists = []
